@@ -1,5 +1,6 @@
 import Driver.C01
 import Driver.C06
+import Driver.C07
 import Driver.C08
 import Driver.C09
 import Driver.C10
@@ -26,6 +27,7 @@ def dispatch (prop : String) (args : List String) (impl : String) : Verdict :=
   | "C03" => C01.handleC03 args impl
   | "C05" => C01.handleC05 args impl
   | "C06" => C06.handle args impl
+  | "C07" => C07.handle args impl
   | "C08" => C08.handle args impl
   | "C09" => C09.handle args impl
   | "C10" => C10.handle args impl
